@@ -1,7 +1,7 @@
 (** LeafReconP.v — hand-written model functions = the definitions tools/gen_leaf.py regenerates from the Rust
     source on every run (coq/Gen/LeafRecon.v); see DESIGN.md §12.8. *)
 From Coq Require Import Floats.
-From Srtla Require Import Base Constants LeafRecon.
+From Srtla Require Import Base Constants LeafRecon LeafTac.
 From Srtla Require Reconnect.
 From Coq Require Import ZifyBool.
 Local Open Scope Z_scope.
@@ -9,19 +9,16 @@ Local Open Scope Z_scope.
 (** ---- connection/reconnection.rs  <->  Model/Reconnect.v (C08) ---- *)
 Lemma leaf_backoff_delay_ok r :
   Reconnect.backoff_delay r = leaf_backoff_delay (Reconnect.r_fail r).
-Proof. unfold Reconnect.backoff_delay, leaf_backoff_delay. cbn zeta. rewrite Z.shiftl_1_l. reflexivity. Qed.
+Proof. first [ solve [ unfold Reconnect.backoff_delay, leaf_backoff_delay; cbn zeta; rewrite Z.shiftl_1_l; reflexivity ] | leaf_auto ]. Qed.
 
 Lemma leaf_should_attempt_ok r now :
   Reconnect.should_attempt r now =
   leaf_should_attempt_reconnect (Reconnect.r_est r) (Reconnect.r_grace r) (Reconnect.r_last r) (Reconnect.r_fail r) now.
-Proof.
-  unfold Reconnect.should_attempt, leaf_should_attempt_reconnect. rewrite leaf_backoff_delay_ok.
-  change INITIAL_RETRY_CADENCE_MS with 1000. reflexivity.
-Qed.
+Proof. first [ solve [ unfold Reconnect.should_attempt, leaf_should_attempt_reconnect; rewrite leaf_backoff_delay_ok; change INITIAL_RETRY_CADENCE_MS with 1000; reflexivity ] | leaf_auto ]. Qed.
 
 Lemma leaf_record_attempt_ok r now :
   let r' := Reconnect.record_attempt r now in
   (Reconnect.r_last r', Reconnect.r_fail r') =
   leaf_record_attempt (Reconnect.r_last r) (Reconnect.r_fail r) (Reconnect.r_est r) now.
-Proof. cbn zeta. unfold Reconnect.record_attempt, leaf_record_attempt. destruct (_ =? 0); reflexivity. Qed.
+Proof. first [ solve [ cbn zeta; unfold Reconnect.record_attempt, leaf_record_attempt; destruct (_ =? 0); reflexivity ] | leaf_auto ]. Qed.
 
